@@ -16,8 +16,10 @@ FREE_KEYS = [k for k in KEYS if k not in RESERVED]
 VALUE_KINDS = ['smooth', 'noise', 'const', 'zeros', 'ramp', 'huge', 'neg', 'tiny']
 
 
-def cube(shape, seed=0, kind='smooth'):
+def cube(shape, seed=0, kind='smooth', dead=None):
     """Finite float32 cube; every trace differs from every other (position watermark)."""
+    if kind.startswith('dead'):
+        kind, dead = 'smooth', ('first-last' if kind == 'deadends' else 'first')
     rng = np.random.default_rng(seed)
     g = np.meshgrid(*[np.arange(s, dtype=np.float64) for s in shape], indexing='ij')
     if kind == 'smooth':
@@ -45,7 +47,13 @@ def cube(shape, seed=0, kind='smooth'):
         for i, x in enumerate(g[:-1]):
             w = w * 37 + x[..., 0]
         a = a + w[..., None] * 0.37
-    return np.ascontiguousarray(a, dtype=np.float32)
+    a = np.ascontiguousarray(a, dtype=np.float32)
+    if dead:
+        # dead (all-zero) traces where a reader's self-test or a first/last-trace heuristic looks: the first line, or the first and last
+        a[0] = 0
+        if dead == 'first-last':
+            a[-1] = 0
+    return a
 
 
 def _base_header(nz, dt_us, t0):
